@@ -42,5 +42,6 @@ func VerifH_QuoteNeutral() {
 	quoted := unescapeParameter(bytes.Bytes(refEscape(v)))
 	verifrt.Assert("C17.bare-identity", string(bare) == string(v))
 	verifrt.Assert("C17.quote-neutral", string(quoted) == string(bare))
+	verifrt.Assert("C05.quote-neutral", string(quoted) == string(bare))
 	verifrt.Reach("C17.neutral.any", n >= 2)
 }
